@@ -153,7 +153,8 @@ def meta(ds, d, ap, cfg_, reg, sc, ndims):
         C = alpha.parse_cell_h(d, "Level_%d" % l, want_mm=False)
         if [[list(map(int, i[0])), list(map(int, i[1]))] for i in pck.cells[l]["indexes"]] != C["idx"]:
             return "level %d index ranges %r, level header states %r" % (l, pck.cells[l]["indexes"], C["idx"])
-    return None
+    from checks.c02 import grids_ok
+    return grids_ok(pck, H, lim, ndims, cfg_.numfmt)
 
 
 def point(ds, ap, cfg_, reg, sc, cfgseed):
